@@ -23,7 +23,7 @@ theorem sorted_perm_eq (l₁ l₂ : List String)
     (h₁ : l₁.Pairwise (fun a b => decide (a ≤ b) = true)) (h₂ : l₂.Pairwise (fun a b => decide (a ≤ b) = true))
     (h : l₁.Perm l₂) : l₁ = l₂ :=
   List.Perm.eq_of_pairwise (le := fun a b => decide (a ≤ b) = true)
-    (fun a b _ _ hab hba => String.le_antisymm (of_decide_eq_true hab) (of_decide_eq_true hba)) h₁ h₂ h
+    (fun _ _ _ _ hab hba => String.le_antisymm (of_decide_eq_true hab) (of_decide_eq_true hba)) h₁ h₂ h
 
 theorem sorted_mergeSort_le (l : List String) :
     (l.mergeSort (fun a b => decide (a ≤ b))).Pairwise (fun a b => decide (a ≤ b) = true) :=
@@ -126,7 +126,12 @@ theorem registerAll_lookup (l : List (String × Nat)) (hk : (l.map (·.1)).Nodup
   simp
 
 /-! non-vacuity -/
-example : ["pp", "b", "a"].mergeSort (fun a b => decide (a ≤ b)) = ["a", "b", "pp"] := by decide +kernel
+example : ["pp", "b", "a"].Perm ["a", "pp", "b"] ∧
+    ["a", "b", "pp"].Pairwise (fun a b => decide (a ≤ b) = true) := by decide
+/-- (`mergeSort` is defined by well-founded recursion and does not evaluate under `decide`; the value is
+    obtained from the two decided facts above through `sorted_perm_eq`) -/
+example : ["pp", "b", "a"].mergeSort (fun a b => decide (a ≤ b)) = ["a", "b", "pp"] :=
+  sorted_perm_eq _ _ (sorted_mergeSort_le _) (by decide) ((List.mergeSort_perm _ _).trans (by decide))
 example : registerAll [("a", 1), ("b", 2)] "b" = registerAll [("b", 2), ("a", 1)] "b" ∧
     registerAll [("a", 1), ("b", 2)] "b" = some 2 := by decide
 
